@@ -585,12 +585,20 @@ func statusTypestate(c *Ctx) {
 			}
 		}
 		guardStatus := func(want string) bool {
-			return chainGuarded(c, pw.Top, pw.Chain, pw.Eff.Site, func(p ir.Pred) bool {
+			m := func(p ir.Pred) bool {
 				return cmpIs(p, "==", func(x *ir.Expr) bool {
 					k, ok := allStateField(c, x, secPO, "Status")
 					return ok && k.String() == baseKey
 				}, func(y *ir.Expr) bool { return y.Op == "const" && y.Name == want })
-			}, 2)
+			}
+			if chainGuarded(c, pw.Top, pw.Chain, pw.Eff.Site, m, 2) {
+				return true
+			}
+			// the order may come out of a list of checked orders collected beforehand
+			if idv := fieldOfStruct(st, "Id"); idv != nil {
+				return collectedGuard(c, idv, m)
+			}
+			return false
 		}
 		unchanged := func(except ...string) string {
 			ex := setOf(except...)
@@ -764,6 +772,13 @@ func blockerOrdering(c *Ctx) {
 						}
 						if e.String() == id || w.Expand(e, 4).String() == id {
 							return true
+						}
+						// the id field of the order loaded under that id: an order is stored under the key of its own id
+						// (A7.raise-fields: the key written at raise time is the key of the Id stored)
+						if nz := nonZeroAlts(w.Expand(e, 4)); len(nz) == 1 && isStateField(nz[0], secPO, "Id") {
+							if ka := keyArgs(stateKey(nz[0])); len(ka) == 1 && ka[0].String() == id {
+								return true
+							}
 						}
 					}
 					if keySec == "" {
